@@ -53,16 +53,16 @@ theorem RecInv_of_shape {pkgs : List Pkg} {i : Nat} {e : Entry} {st st' : St}
     exact ⟨h1, e', m1, m2, m3, by rw [ht, lookupT_setT_ne _ _ _ _ hne]; exact h2⟩
 
 theorem stepEntry_rec (c : Cfg) (hc : c.spec = false) (pkgs : List Pkg) (i : Nat) (e : Entry) (st st' : St) (b : Bool)
-    (h : stepEntry c pkgs i e st = .ok (st', b)) (hwf : WF e) (hmem : e ∈ (pkgs.getD i default).entries) :
+    (h : stepEntry c pkgs i e st = .ok (st', b)) (hwf : WFn e) (hmem : e ∈ (pkgs.getD i default).entries) :
     ∃ x, st'.flags = st.flags ++ x ∧ (Benign x → RecInv pkgs st → RecInv pkgs st') := by
   obtain ⟨x, hx, hs⟩ := stepEntry_shape c hc pkgs i e st st' b h hwf
-  refine ⟨x, hx, fun h0 hI => RecInv_of_shape hmem (fun hk => ?_) (hs h0) hI⟩
-  exact (hwf (by rw [hk]; decide)).1
+  refine ⟨x, hx, fun h0 hI => RecInv_of_shape hmem (fun hk => ?_) (hs h0).1 hI⟩
+  exact (hs h0).2 (by rw [hk]; decide)
 
 /-- `files` only collects headers of the package -/
 theorem installPkg_rec (c : Cfg) (hc : c.spec = false) (pkgs : List Pkg) (i : Nat) :
     ∀ (es : List Entry) (st : St) (files : List Entry) (st' : St) (files' : List Entry),
-      installPkg c pkgs i es st files = .ok (st', files') → (∀ e ∈ es, WF e) →
+      installPkg c pkgs i es st files = .ok (st', files') → (∀ e ∈ es, WFn e) →
       (∀ e ∈ es, e ∈ (pkgs.getD i default).entries) →
       (∀ e ∈ files', e ∈ files ∨ e ∈ es) ∧
       ∃ x, st'.flags = st.flags ++ x ∧ (Benign x → RecInv pkgs st → RecInv pkgs st') := by
@@ -108,7 +108,7 @@ theorem getD_drop_head (pkgs : List Pkg) (i : Nat) (p : Pkg) (rest : List Pkg) (
 theorem installFrom_rec (c : Cfg) (hc : c.spec = false) (pkgs : List Pkg) :
     ∀ (ps : List Pkg) (i : Nat) (st : St) (all : List (List Entry)) (st' : St) (all' : List (List Entry)),
       installFrom c pkgs i ps st all = .ok (st', all') → pkgs.drop i = ps → all.length = i →
-      (∀ p ∈ pkgs, ∀ e ∈ p.entries, WF e) →
+      (∀ p ∈ pkgs, ∀ e ∈ p.entries, WFn e) →
       (∀ k files, all[k]? = some files → ∀ e ∈ files, e ∈ (pkgs.getD k default).entries) →
       (∀ k files, all'[k]? = some files → ∀ e ∈ files, e ∈ (pkgs.getD k default).entries) ∧
       ∃ x, st'.flags = st.flags ++ x ∧ (Benign x → RecInv pkgs st → RecInv pkgs st') := by
